@@ -47,6 +47,7 @@ Section Generic.
   Variable path : P -> O -> option res.
   Variable defaults : P.
   Variable base : Z.
+  Variable blocker : O -> bool.   (* the operation is a run of begin / end blockers *)
 
   (** step 0: the model's validation, update outcome and stored value agree with what was seen.
       Validation and update are compared as ACCEPTED / NOT ACCEPTED: whether a set that is not accepted
@@ -81,7 +82,7 @@ Section Generic.
     let '(os, _, _, _) := e in
     match path pset os with
     | Some (Panic w) => w
-    | _ => base + 99
+    | _ => if blocker os then base + 98 else base + 99
     end.
 
   Fixpoint check_ops (pset : P) (l : list (O * Z * O * Z)) (i corr prop code : Z) : Z * Z * Z :=
@@ -105,11 +106,11 @@ End Generic.
     where C16 fails on the implementation's own observations or -1, clause code) *)
 Definition check_case (c : case) : Z * Z * Z :=
   match c with
-  | CaseCS c => check_mcase validate_cs update_cs cs_path cs_defaults 100 c
-  | CaseFM c => check_mcase validate_fm update_fm fm_path fm_defaults 200 c
-  | CaseHT c => check_mcase validate_ht update_ht ht_path ht_defaults 300 c
-  | CaseSV c => check_mcase validate_sv update_sv sv_path sv_defaults 400 c
-  | CaseTK c => check_mcase validate_tk update_tk tk_path tk_defaults 500 c
+  | CaseCS c => check_mcase validate_cs update_cs cs_path cs_defaults 100 (fun _ => false) c
+  | CaseFM c => check_mcase validate_fm update_fm fm_path fm_defaults 200 (fun _ => false) c
+  | CaseHT c => check_mcase validate_ht update_ht ht_path ht_defaults 300 (fun o => match o with HtBegin => true | _ => false end) c
+  | CaseSV c => check_mcase validate_sv update_sv sv_path sv_defaults 400 (fun o => match o with SvBlocks _ => true | _ => false end) c
+  | CaseTK c => check_mcase validate_tk update_tk tk_path tk_defaults 500 (fun _ => false) c
   end.
 
 (** the chain state after genesis with the regenerated default parameters *)
